@@ -1,7 +1,7 @@
 """C18 — security estimate and acceptance policy: policy decision first and per policy arm (E2), the level is
 computed from the proof's own parameters, claimed field = computation's field, and the conjectured estimate equals
 the documented formula as a normal-form comparison of path-wise symbolic expressions (E5, integer part)."""
-from ..cfg import T, S, must_between, guards as local_guards, reach
+from ..cfg import T, S, must_between, guards as local_guards, reach, exits
 from ..flow import flow
 from ..guards import accept_nodes
 from ..ir import callee_name, AnchorError, const_int
@@ -114,6 +114,39 @@ def run(ck):
                 w = fl.walk(ops=[g.cond.call["args"][0]], at=g.cond.node, through=V.transparent)
                 if okc and any(a == "winter_verifier::AcceptableOptions" for a, f in fl.fields_in(w)):
                     good.append(g)
+            if not good:
+                # the same decision written as a loop: `for o in options { if o == proof.options() { return Ok(()) } } Err(..)` —
+                # inside the arm, acceptance is reachable only through the true edge of an equality between a listed option set and
+                # the proof's options, and falling out of the loop is the UnacceptableProofOptions error
+                from ..cfg import trace_cond
+                acc_in = [n for n in acc if n in region]
+                for bb, blk in enumerate(val.blocks):
+                    tt = blk["t"]
+                    if tt["k"] != "switch" or (bb, T) not in region:
+                        continue
+                    c = trace_cond(val, tt["d"])
+                    if c.kind != "cmp" or c.op not in ("==", "!="):
+                        continue
+                    lw = fl.walk(ops=[c.lhs], at=c.node, through=lambda t_: True)
+                    rw = fl.walk(ops=[c.rhs], at=c.node, through=lambda t_: True)
+                    sides = [(lw, rw), (rw, lw)]
+                    if not any(any(a == "winter_verifier::AcceptableOptions" for a, f in fl.fields_in(x)) and
+                               any(n.endswith("Proof::options") for n in fl.callee_names_in(y)) for x, y in sides):
+                        continue
+                    listed = [v for v, _ in tt["targets"]]
+                    eq_true = [tb for v, tb in tt["targets"] if v != "0"] or ([tt["otherwise"]] if listed == ["0"] else [])
+                    eq_false = [tb for v, tb in tt["targets"] if v == "0"] or ([tt["otherwise"]] if "0" not in listed else [])
+                    yes, no = (eq_true, eq_false) if c.op == "==" else (eq_false, eq_true)
+                    if not yes or not no or not acc_in:
+                        continue
+                    # every accepting return of the arm is reached through the `equal` edge only
+                    r_no = reach(val, [(no[0], S)], avoid=frozenset([(bb, T)]))
+                    via_no = any(n in r_no for n in acc_in)
+                    r_entry = reach(val, [entry], avoid=frozenset([(yes[0], S)]))
+                    without_yes = any(n in r_entry for n in acc_in)
+                    errs_ok = any(e.variant == "UnacceptableProofOptions" and e.node in region for e in exits(val) if e.kind == "err")
+                    if not via_no and not without_yes and errs_ok:
+                        good.append(bb)
             ck.ob("POL", f"arm:{vname}", bool(good),
                   f"under {vname}: reject iff none of the caller's accepted option sets equals the proof's options",
                   loc=val.loc())
